@@ -8,6 +8,7 @@ import (
 	"fmt"
 	"go/token"
 	"go/types"
+	"sort"
 	"strings"
 
 	"golang.org/x/tools/go/ssa"
@@ -54,17 +55,54 @@ func (e *Enc) callCommon(c *ssa.CallCommon, pos token.Pos, hint string, rt types
 		return r
 	}
 	ct := w.cs.Funcs[key]
+	var args []Term
+	for _, a := range c.Args {
+		args = append(args, e.argTerm(a))
+	}
+	typedIdx, typedInner := -1, ssa.Value(nil)
+	if tk, idx, inner := e.typedKey(c, key); tk != "" {
+		ct, key, typedIdx, typedInner = w.cs.Funcs[tk], tk, idx, inner
+		args[idx] = e.unboxed(args[idx], inner)
+	}
 	if ct == nil {
 		panic(unsupported("call to " + key + " which has no contract"))
 	}
 	if ct.Assumed {
 		w.assumedUsed[key] = true
 	}
-	var args []Term
-	for _, a := range c.Args {
-		args = append(args, e.argTerm(a))
-	}
 	vars := bindParams(callee.Signature, args)
+	if m := ct.Options["callback"]; m != "" {
+		// same protocol as for invokes: shared result terms, then the implementors' contracts
+		rts := resultTypes(callee.Signature)
+		preState := e.cur.clone()
+		wn, an := e.fresh("W"), e.fresh("A")
+		e.declare(wn, "Int")
+		e.declare(an, "Int")
+		e.body = append(e.body, fmt.Sprintf("(assert (>= %s %s))", wn, e.cur.W), fmt.Sprintf("(assert (>= %s %s))", an, e.cur.A))
+		resVars := map[string]Term{}
+		var res []Term
+		for i, t := range rts {
+			r := e.havocVal(nil, t, callee.Name()+"_r")
+			e.body = append(e.body, assertAll(w.reg.wf(r.S, t, wn))...)
+			resVars[fmt.Sprintf("ret%d", i)] = r
+			if len(rts) == 1 {
+				resVars["ret"] = r
+			}
+			res = append(res, r)
+		}
+		for k, v := range resVars {
+			vars[k] = v
+		}
+		e.applyContract(ct, "true", vars, rts, pos, key, preState, wn, an, false)
+		e.callback(ct, m, typedIdx, typedInner, args, vars, resVars, rts, pos, preState, wn, an)
+		e.cur.W, e.cur.A = wn, an
+		for _, co := range e.pendingCopyOut {
+			v := w.loadAt(e.cur, e.useMem, &Addr{base: co.ref, elem: co.to.elem})
+			w.storeAt(e.cur, e.useMem, co.to, v.S)
+		}
+		e.pendingCopyOut = nil
+		return res
+	}
 	return e.applyContract(ct, "true", vars, resultTypes(callee.Signature), pos, key, e.cur.clone(), "", "", true)
 }
 
@@ -642,6 +680,141 @@ func (e *Enc) errorf(c *ssa.CallCommon, pos token.Pos) Term {
 	return Term{e.define(e.fresh("errorf"), "Iface", fmt.Sprintf("(mk-iface %d %s \"\" #x0000000000000000)", w.libErrorTag(), ref)), "Iface", errorType}
 }
 
+// typedKey: a call whose interface{}-typed argument is a conversion of a value of static type T
+// may have a more specific assumed contract keyed "<callee>[T]" (struct tags dropped from T).
+func (e *Enc) typedKey(c *ssa.CallCommon, base string) (string, int, ssa.Value) {
+	for i, a := range c.Args {
+		if it, ok := a.Type().Underlying().(*types.Interface); !ok || it.NumMethods() != 0 {
+			continue
+		}
+		var inner ssa.Value
+		switch x := a.(type) {
+		case *ssa.MakeInterface:
+			inner = x.X
+		case *ssa.ChangeInterface:
+			inner = x.X
+		default:
+			continue
+		}
+		k := base + "[" + typeStrNoTags(e.w, inner.Type()) + "]"
+		if _, ok := e.w.cs.Funcs[k]; ok {
+			return k, i, inner
+		}
+	}
+	return "", -1, nil
+}
+
+// unboxed recovers the value that was converted to interface{} for a call.
+func (e *Enc) unboxed(boxed Term, inner ssa.Value) Term {
+	if _, isIface := inner.Type().Underlying().(*types.Interface); isIface {
+		return Term{boxed.S, boxed.Sort, inner.Type()}
+	}
+	return e.w.ifacePayload(boxed, inner.Type())
+}
+
+func typeStrNoTags(w *World, t types.Type) string {
+	s := w.typeStr(t)
+	// drop struct tags: string literals inside struct{...}
+	var b strings.Builder
+	inStr := byte(0)
+	for i := 0; i < len(s); i++ {
+		ch := s[i]
+		if inStr != 0 {
+			if ch == '\\' {
+				i++
+			} else if ch == inStr {
+				inStr = 0
+			}
+			continue
+		}
+		if ch == '"' || ch == '`' {
+			inStr = ch
+			// remove the blank before the tag
+			out := b.String()
+			if strings.HasSuffix(out, " ") {
+				b.Reset()
+				b.WriteString(out[:len(out)-1])
+			}
+			continue
+		}
+		b.WriteByte(ch)
+	}
+	return b.String()
+}
+
+// callback: the library call invokes method m of the dynamic type of its (interface) argument --
+// e.g. Unmarshal(data, v) calls v.UnmarshalCBOR(data) after a well-formedness check. The in-repo
+// contracts of the implementors of m are applied per dynamic type (closed world), under the
+// guard given by the contract's `wellformed` option; when the guard is false the call fails and
+// nothing is written.
+func (e *Enc) callback(ct *Contract, m string, idx int, inner ssa.Value, args []Term, vars, resVars map[string]Term, rts []types.Type, pos token.Pos, preState *State, wn, an string) {
+	w := e.w
+	if inner == nil {
+		panic(unsupported("callback contract " + ct.Key + " used without a typed interface argument"))
+	}
+	target := args[idx]
+	it, ok := inner.Type().Underlying().(*types.Interface)
+	if !ok {
+		panic(unsupported("callback on non-interface argument"))
+	}
+	g := "true"
+	if wf := ct.Options["wellformed"]; wf != "" {
+		x, err := parseClauseExpr(wf)
+		if err != nil {
+			panic(unsupported("bad wellformed option: " + err.Error()))
+		}
+		env := &Env{w: w, pkg: e.pkgOf(ct), vars: vars, pre: preState, cur: preState, W0: preState.W, decl: e.declare, useMem: e.useMem, ghost: e.ghost}
+		g = env.bool(x)
+	}
+	var cases []implCase
+	for key, c2 := range w.cs.Funcs {
+		fn := w.fnByKey[key]
+		if fn == nil || fn.Signature.Recv() == nil {
+			continue
+		}
+		name := fn.Name()
+		if o := fn.Origin(); o != nil {
+			name = o.Name()
+		}
+		if name != m {
+			continue
+		}
+		rt := fn.Signature.Recv().Type()
+		if types.Implements(rt, it) {
+			cases = append(cases, implCase{ct: c2, dynT: rt, fn: fn})
+		}
+	}
+	sort.Slice(cases, func(i, j int) bool { return cases[i].ct.Key < cases[j].ct.Key })
+	var alts []string
+	for _, ic := range cases {
+		alts = append(alts, fmt.Sprintf("(= (i-tag %s) %d)", target.S, w.reg.tagOf(ic.dynT)))
+	}
+	if ct.Options["callback-open"] == "" {
+		e.oblige("invoke-closed", "", or(alts...), "dynamic type of the value handed to "+ct.Key+" must be one of the implementors of "+m+" under contract", nil, pos)
+	}
+	var rest []Term
+	for i, a := range args {
+		if i != idx {
+			rest = append(rest, a)
+		}
+	}
+	for _, ic := range cases {
+		guard := and(fmt.Sprintf("(= (i-tag %s) %d)", target.S, w.reg.tagOf(ic.dynT)), g)
+		rv := w.ifacePayload(target, ic.dynT)
+		cv := bindParams(ic.fn.Signature, append([]Term{rv}, rest...))
+		for k, v := range resVars {
+			cv[k] = v
+		}
+		e.applyContract(ic.ct, guard, cv, rts, pos, ic.ct.Key, preState, wn, an, false)
+	}
+	if g != "true" && len(rts) > 0 {
+		last := resVars[fmt.Sprintf("ret%d", len(rts)-1)]
+		if last.Sort == "Iface" {
+			e.assume(fmt.Sprintf("(=> (not %s) (not (= %s %s)))", g, last.S, nilIface))
+		}
+	}
+}
+
 // ---- interface invokes -------------------------------------------------------------------------
 
 type implCase struct {
@@ -719,6 +892,11 @@ func (e *Enc) invoke(c *ssa.CallCommon, pos token.Pos, hint string) []Term {
 		args = append(args, e.argTerm(a))
 	}
 	ict := w.cs.Funcs[ikey]
+	typedIdx, typedInner := -1, ssa.Value(nil)
+	if tk, idx, inner := e.typedKey(c, ikey); tk != "" {
+		ict, ikey, typedIdx, typedInner = w.cs.Funcs[tk], tk, idx, inner
+		args[idx] = e.unboxed(args[idx], inner)
+	}
 	cases := e.implCases(c)
 	if ict == nil && len(cases) == 0 {
 		panic(unsupported("invoke of " + ikey + ": no interface-level contract and no implementor under contract"))
@@ -760,6 +938,9 @@ func (e *Enc) invoke(c *ssa.CallCommon, pos token.Pos, hint string) []Term {
 			}
 		}
 		apply(ict, "true", vars)
+		if m := ict.Options["callback"]; m != "" {
+			e.callback(ict, m, typedIdx, typedInner, args, vars, resVars, rts, pos, preState, wn, an)
+		}
 	} else {
 		// closed world: the dynamic type must be one of the implementors under contract
 		var alts []string
